@@ -209,7 +209,7 @@ func (f *frame) exec(in ssa.Instruction, st *State, cur string) (string, error) 
 				cur = and(cur, fmt.Sprintf("(not (= %s 0))", lv.obj))
 			}
 			f.def(x, t.load(st, lv))
-			cur = and(cur, t.typeFacts(st, f.vals[x].term, x.Type()))
+			cur = and(cur, t.typeFactsA(t.lastAlloc, f.vals[x].term, x.Type()))
 			return cur, nil
 		case token.NOT:
 			f.def(x, not(f.termOf(x.X)))
